@@ -36,6 +36,12 @@ func limitsFor(profile string) []lisp.Config {
 			lisp.WithMaxMacroExpansionDepth(100),
 			lisp.WithMaxSleep(time.Millisecond),
 		}
+	case "alloc4", "alloc8", "alloc16":
+		// the fuzz limits with a tight per-operation allocation limit: small
+		// operations are REFUSED, which is what exercises a builtin's error path
+		n := 4
+		fmt.Sscan(strings.TrimPrefix(profile, "alloc"), &n)
+		return append(limitsFor("fuzz"), lisp.WithMaxAlloc(n))
 	case "fuzz-dbg":
 		// the fuzz limits with a (dormant) debugger attached: macro expansion
 		// then also stamps per-node expansion metadata, and tail calls are
@@ -290,6 +296,7 @@ type envSlot struct {
 type executor struct {
 	slots map[string]*envSlot
 	ctx   context.Context
+	progs map[string]lisp.Program // pre-parsed reader programs of the history spaces
 }
 
 func newExecutor() *executor {
@@ -550,6 +557,8 @@ func runReaders(text string, prod bool) (strictOK bool, sig string, evals int64,
 func (x *executor) run(k *kase, reuse int) (r result) {
 	text := k.text()
 	switch k.Mode {
+	case "mutprobe", "history":
+		return x.runHistory(k, reuse)
 	case "read4":
 		// reader-only: the four readers, no limits configured, nothing evaluated
 		ok, sig, ev, c, g := runReaders(text, true)
